@@ -325,7 +325,14 @@ def setups(draw, max_sites=12, jn="maybe", vacancy="maybe", max_order=3, p_catal
         rec = draw(st.sampled_from(cs.catalogue(NAMES3, 3)))
     else:
         rec = draw(cs.crystal_recipes(dim=3, max_species=2, max_mobile=3, max_other=3))
-    crys = cs.build(rec)
+    try:
+        crys = cs.build(rec)
+    except ArithmeticError as e:
+        # Crystal.reduce fails on some generated supercell-like recipes (finding R12, the subject of C19): not this domain
+        if "Reduction did not produce" not in str(e):
+            raise
+        rec = cs.CATALOGUE["B2o"]
+        crys = cs.build(rec)
     nsp = len(crys.basis)
     chem = draw(st.integers(0, nsp - 1)) if draw(st.integers(0, 3)) == 0 else 0
     others = [c for c in range(nsp) if c != chem]
